@@ -377,7 +377,7 @@ def entry_lines(case, res, cap=60):
     """model queries `c12_entry OP 4096 OLDENTRY NEW` for what asn1c made of the entries it found: (state index, file, line).
     Only entries that are not simply the fresh file (those too in the `identical` state), per-type files first, regular
     files up to 5 blocks with their content, at most `cap` per case"""
-    out, seen = [], set()
+    out, seen, quota = [], set(), {}
     F = res.get("fresh", {})
     order = sorted(F, key=lambda f: (not is_per_type(f, F), f))
     for si, s in enumerate(res.get("states", [])):
@@ -400,7 +400,10 @@ def entry_lines(case, res, cap=60):
             if (f, line) in seen:
                 continue
             seen.add((f, line))
-            out.append((si, f, line))
+            key = (op, old[0], b is not None and b[:2] == v[:2])       # a quota per kind of decision, so that every kind is tied
+            quota[key] = quota.get(key, 0) + 1
+            if quota[key] <= max(4, cap // 5) or key[0] in ("type", "copy") and key[1] == "R" and not key[2] and quota[key] <= cap // 2:
+                out.append((si, f, line))
     return out[:cap]
 
 
@@ -566,7 +569,7 @@ def directed_cases(seed, quick=True):
     for i, (lab, sz) in enumerate(sizes):
         modes = [full.get(lab, "restricted")] if quick else ["restricted", "copy", "copy-per", "noexample"]
         for mode in modes:
-            c = {"name": "DirT-" + lab, "mode": mode, "focus": ["T.c", "T.h"] if (lab in ("lt1", "eq1") or not quick) else ["T.c"],
+            c = {"name": "DirT-" + lab, "mode": mode, "focus": ["T.c", "T.h"] if (lab in ("lt1", "eq2") or not quick) else ["T.c"],
                  "variants": True, "seed": seed * 1000 + i, "random": 0 if quick else 6}
             if sz is None:
                 c["text"], c["members"] = dir_module(2), 2
@@ -582,7 +585,7 @@ def directed_cases(seed, quick=True):
     cases.append({"name": "DirS-copy", "mode": "copy", "text": dir_module(3), "members": 3, "variants": False, "seed": seed * 1000 + 21, "focus": skel_focus})
     for j, mode in enumerate(["link", "noexample"]):
         cases.append({"name": "DirM-" + mode, "mode": mode, "text": dir_module(4), "members": 4, "variants": True, "seed": seed * 1000 + 30 + j,
-                      "focus": ["T.c", "NativeInteger.c", "Makefile.am.libasncodec"] if not quick else ["NativeInteger.c", "Makefile.am.libasncodec"]})
+                      "focus": ["T.c", "NativeInteger.c", "Makefile.am.libasncodec"] if not quick else [["NativeInteger.c"], ["Makefile.am.libasncodec"]][j]})
     return cases
 
 
